@@ -533,6 +533,47 @@ var seqMutators = []seqMutator{
 		Go: func(*seqInst) string { return "_ = vfs.SetUser(usr)" },
 	},
 	{
+		// Round 10. Every REFUSAL path of a call is code of its own, and the
+		// deeper a refusal sits the later it was written: "permission denied" on
+		// the directory named by the caller is tested by everybody, the sticky
+		// rule (EPERM although the directory is writable) on an entry met half
+		// way through a recursive removal is not. A state in which those paths
+		// are reached needs three parties: a non-administrator caller, a
+		// world-writable sticky directory that is not his, and in it an entry of
+		// a third user (where the identity manager can make one) - below a
+		// directory he may otherwise empty. With "nonadmin" alone every refusal
+		// is the first permission test of the call.
+		Name: "nonadmin-in-foreign-sticky-dir",
+		Show: `base.Chmod("/a", 0o777); base.Chmod("/a/d", 0o1777); base.WriteFile("/a/d/o", "o", 0o666); u3 := idm.AddUser("u3","grp"); base.Chown("/a/d/o", u3); vfs.SetUser(usr)`,
+		do: func(in *seqInst) error {
+			if err := in.base.Chmod(in.bp("/a"), 0o777); err != nil {
+				return err
+			}
+
+			if err := in.base.Chmod(in.bp("/a/d"), 0o777|fs.ModeSticky); err != nil {
+				return err
+			}
+
+			if err := in.base.WriteFile(in.bp("/a/d/o"), []byte("o"), 0o666); err != nil {
+				return err
+			}
+
+			// the third party, where users can be made (otherwise the entry stays the administrator's)
+			if u3, err := in.idm.AddUser("u3", "grp"); err == nil {
+				if err := in.base.Chown(in.bp("/a/d/o"), u3.Uid(), u3.Gid()); err != nil {
+					return err
+				}
+			}
+
+			return in.v.SetUser(in.usr)
+		},
+		Go: func(in *seqInst) string {
+			return fmt.Sprintf("_ = base.Chmod(%q, 0o777)\n\t_ = base.Chmod(%q, 0o777|fs.ModeSticky)\n\t_ = base.WriteFile(%q, []byte(\"o\"), 0o666)\n\t"+
+				"if u3, err := idm.AddUser(\"u3\", \"grp\"); err == nil {\n\t\t_ = base.Chown(%q, u3.Uid(), u3.Gid())\n\t}\n\t_ = vfs.SetUser(usr)",
+				in.bp("/a"), in.bp("/a/d"), in.bp("/a/d/o"), in.bp("/a/d/o"))
+		},
+	},
+	{
 		Name: "dir-symlink-cycle", Show: `base.Symlink("/a", "/a/d/up")`,
 		do: func(in *seqInst) error { return in.base.Symlink(in.bp("/a"), in.bp("/a/d/up")) },
 		Go: func(in *seqInst) string {
